@@ -1,6 +1,9 @@
 package scen
 
 import (
+	"math/rand"
+	"strconv"
+
 	"verif/harness/simnet"
 )
 
@@ -21,5 +24,32 @@ func init() {
 			Torn:       x.P.Bool("torn"),
 		}
 		RandomSchedule(x, pf)
+	}
+}
+
+// SnapshotProfile draws snapshot-related options from the seed (called by vrun before the cluster is built).
+func SnapshotProfile(seed int64, P Params) {
+	r := rand.New(rand.NewSource(seed ^ 0x51a9))
+	set := func(k string, v int) {
+		if _, ok := P[k]; !ok {
+			P[k] = strconv.Itoa(v)
+		}
+	}
+	set("snapthr", 4+r.Intn(27))
+	pads := []int{0, 0, 100, 20000, 32*1024 - 40, 32*1024 - 39, 40000, 70000, 115000}
+	set("pad", pads[r.Intn(len(pads))])
+	switch r.Intn(4) {
+	case 0: // slow Snapshot, fast Apply
+		set("snapus", 2000+r.Intn(6000))
+	case 1: // slow Apply inside the state machine's critical section
+		set("applyin", 200+r.Intn(1500))
+	case 2: // slow Apply before taking the state machine's lock, slow Restore
+		set("applypre", 200+r.Intn(1500))
+		set("restoreus", 1000+r.Intn(5000))
+	default:
+		set("applyin", r.Intn(400))
+		set("snapus", r.Intn(3000))
+		set("snappre", r.Intn(2000))
+		set("restoreus", r.Intn(3000))
 	}
 }
